@@ -166,6 +166,13 @@ def check_full(cell, col, colidx, row, pattern, lower, out):
     elif back != label.upper():
         out.append(fail('to_label(extract_label(%r)) = %r, expected %r' % (label, back, label.upper()),
                         label.upper(), repr(back)))
+    elif hasattr(r, '_replace') and row < 10 ** 30:
+        # the label is a function of the indices: a decomposed reference moved one row down and one column right spells that cell
+        moved = cell.to_label(r._replace(index=r.index + 1), cc._replace(index=cc.index + 1))
+        want = ('$' if cabs else '') + cell.column_index_to_label(colidx + 1) + ('$' if rabs else '') + digits_of(row + 1)
+        if moved != want:
+            out.append(fail('to_label of the parts of %r with both indices raised by one = %r, expected %r (the label follows the indices, '
+                            'not a text stored in the parts)' % (label, moved, want), want, repr(moved)))
 
 
 class FullByColumn(Sub):
